@@ -93,7 +93,33 @@ def run_case(case, rec, ssj=None):
     L, R = make_tables(rng, tok)
     allow_empty = rng.random() < 0.5
     entry = rng.choice(['join', 'join', 'ft', 'pair', 'candset'])
-    base = {'ltable': L, 'rtable': R, 'l_key': 'lid', 'r_key': 'rid', 'l_attr': 'lattr',
+    lkey, rkey = 'lid', 'rid'
+    if rng.random() < 0.12:
+        # an asymmetric schema: ONE table is keyed by its join column (unique, nothing missing; a single
+        # empty value is a perfectly good key), the other has a key column of its own (string ids half
+        # of the time)
+        side = rng.choice('lr')
+        spec = L if side == 'l' else R
+        seen, vals = set(), []
+        for i, v in enumerate(spec['data'][side + 'attr']):
+            if model.is_missing(v) or v in seen:
+                v = 'u%d a' % i if tok['kind'] != 'qgram' else 'ab' * 2 + 'abab'[:i % 4] + 'b' * (i // 4)
+                if v in seen:
+                    v = v + 'a' * (i + 1)
+            seen.add(v)
+            vals.append(v)
+        spec['data'][side + 'attr'] = vals
+        if side == 'l':
+            lkey = 'lattr'
+        else:
+            rkey = 'rattr'
+        other = R if side == 'l' else L
+        oside = 'r' if side == 'l' else 'l'
+        if rng.random() < 0.5:
+            other['data'][oside + 'id'] = ['K%s' % k for k in other['data'][oside + 'id']]
+            other['dtypes'][oside + 'id'] = 'object'
+        rec.count('asymmetric_schema_cases')
+    base = {'ltable': L, 'rtable': R, 'l_key': lkey, 'r_key': rkey, 'l_attr': 'lattr',
             'r_attr': 'rattr', 'tok': tok, 'n_jobs': rng.choice([1, 2, 3, 4, 20])}
     if rng.random() < 0.1:
         base['show_progress'] = True
@@ -171,9 +197,11 @@ def run_case(case, rec, ssj=None):
     pairs = sorted(both)[:20]
     if not pairs:
         return info
-    lkeys, rkeys = T.column(L, 'lid'), T.column(R, 'rid')
-    cs = T.table_spec(['_id', 'l_lid', 'r_rid'], [[n, lkeys[i], rkeys[j]] for n, (i, j) in enumerate(pairs)])
-    call = dict(base, api='filter_candset', filter=fspec, candset=cs, c_l_key='l_lid', c_r_key='r_rid')
+    lkeys, rkeys = T.column(L, base['l_key']), T.column(R, base['r_key'])
+    cs = T.table_spec(['_id', 'l_' + base['l_key'], 'r_' + base['r_key']],
+                      [[n, lkeys[i], rkeys[j]] for n, (i, j) in enumerate(pairs)])
+    call = dict(base, api='filter_candset', filter=fspec, candset=cs, c_l_key='l_' + base['l_key'],
+                c_r_key='r_' + base['r_key'])
     try:
         out = T.exec_call(ssj, call, {'tok': tk, 'filter': flt})
     except Exception as e:
